@@ -397,6 +397,111 @@ def legacy_history_oracle(seed, tier):
     return res
 
 
+def legacy_overlap_oracle(seed, tier):
+    """Two `download_file` calls of ONE legacy S3Transfer object for the same destination overlap: A has written
+    every byte to its temporary file and is about to close and rename it when B opens its own temporary file; then
+    A finishes, then B fails (or finishes).  At every observation the destination holds its previous content or a
+    complete object, a success means the complete object, and no temporary file is left."""
+    import threading
+    from s3transfer import S3Transfer, TransferConfig
+    res = OracleResult('C06')
+    rng = rng_for(seed, 'legacy-overlap')
+    tmpdir = tempfile.mkdtemp(prefix='s3v-lo-')
+    try:
+        for it in range(6 if tier == 'quick' else 100):
+            size = rng.choice([5, 100, 20000])
+            obj = {'a': bytes((i * 7 + 1) % 256 for i in range(size)), 'b': bytes((i * 11 + 3) % 256 for i in range(size))}
+            b_ends = rng.choice(['fails', 'fails', 'completes'])
+            ev = {n: threading.Event() for n in ('a_eof', 'a_go', 'b_open', 'b_go')}
+
+            class Body:
+                def __init__(self, key):
+                    self.key, self.data, self.pos = key, obj[key], 0
+
+                def read(self, n=-1):
+                    if self.key == 'b' and self.pos == 0:
+                        ev['b_open'].set()           # B's temporary file is open now
+                        ev['b_go'].wait(10)
+                        if b_ends == 'fails':
+                            raise InjectedFault('body-b')
+                    if self.pos >= len(self.data):
+                        if self.key == 'a':
+                            ev['a_eof'].set()        # A has written everything, not yet closed / renamed
+                            ev['a_go'].wait(10)
+                        return b''
+                    n = len(self.data) - self.pos if n is None or n < 0 else n
+                    chunk = self.data[self.pos:self.pos + n]
+                    self.pos += len(chunk)
+                    return chunk
+
+            class Client:
+                meta = FakeS3().meta
+
+                def head_object(self, **kw):
+                    return {'ContentLength': size}
+
+                def get_object(self, **kw):
+                    return {'Body': Body(kw['Key']), 'ContentLength': size}
+            d = os.path.join(tmpdir, 'it%d' % it)
+            os.makedirs(d)
+            dest = os.path.join(d, 'dest')
+            previous = b'previous-content'
+            with open(dest, 'wb') as f:
+                f.write(previous)
+            s3t = S3Transfer(Client(), TransferConfig(multipart_threshold=10 ** 9, num_download_attempts=1))
+            outcome = {}
+
+            def run(key):
+                try:
+                    s3t.download_file('bucket', key, dest)
+                    outcome[key] = 'ok'
+                except BaseException as e:   # noqa
+                    outcome[key] = type(e).__name__
+            ta = threading.Thread(target=run, args=('a',), daemon=True)
+            tb = threading.Thread(target=run, args=('b',), daemon=True)
+            ta.start()
+            ok = ev['a_eof'].wait(10)
+            tb.start()
+            ok = ev['b_open'].wait(10) and ok
+            ev['a_go'].set()
+            ta.join(10)
+
+            def content():
+                try:
+                    with open(dest, 'rb') as f:
+                        return f.read()
+                except OSError:
+                    return None
+            after_a = content()
+            ev['b_go'].set()
+            tb.join(10)
+            after_b = content()
+            left = sorted(n for n in os.listdir(d) if n != 'dest')
+            res.evaluations += 1
+            res.hit('legacy-overlap:b-%s' % b_ends)
+            res.nontrivial.add((size, b_ends, it))
+            wit = {'front_end': 'legacy S3Transfer.download_file, two overlapping calls on one object, same destination',
+                   'object_bytes': size, 'second_download': b_ends, 'outcomes': dict(outcome)}
+            if not ok or ta.is_alive() or tb.is_alive():
+                res.violation('legacy-overlap:hangs', wit, 'the overlapping downloads did not finish')
+                continue
+            allowed = {previous, obj['a'], obj['b']}
+            if outcome.get('a') == 'ok' and after_a not in (obj['a'], obj['b']):
+                res.violation('legacy-overlap:partial-content-after-success', dict(wit, destination_bytes=None if after_a is None else len(after_a)),
+                              'download A returned successfully and the destination holds %s bytes that are no complete object'
+                              % (None if after_a is None else len(after_a)))
+            elif after_a not in allowed or after_b not in allowed:
+                res.violation('legacy-overlap:partial-content', wit, 'the destination held neither its previous content nor a complete object')
+            if left:
+                res.violation('legacy-overlap:temp-left', dict(wit, files=left), 'temporary files left: %r' % left)
+            if res.enough():
+                break
+        res.samples.append(wit)
+    finally:
+        shutil.rmtree(tmpdir, ignore_errors=True)
+    return res
+
+
 def legacy_history_oracle_c02(seed, tier):
     r = legacy_history_oracle(seed, tier)
     r.prop = 'C02'
